@@ -46,7 +46,40 @@ fn harder_arrival(rng: &mut rand::rngs::StdRng, a: &Value) -> (Value, &'static s
     }
 }
 
+/// Fixed walks: the task under analysis releases pairs of jobs (delta-min prefix [0, T2]) and receives more and more
+/// release jitter (clone_with_jitter -> Propagated); an interfering task is released shortly before the second pair
+/// completes, so the maximum lies at an offset of the *second* burst -- an offset that only the steps of the
+/// propagated curve bring into the search space.
+fn bursty_jitter_walks(ctx: &mut Ctx) {
+    for t2 in [12u64, 20] {
+        for c0 in [3u64, 4] {
+            // light and heavy interference (a heavy job released just before the second pair completes)
+            for (t1, c1) in [(7u64, 2u64), (11, 3), (25, 16), (30, 16)] {
+                for xc in [false, true] {
+                    let curve = if xc { json!({"k": "xcurve", "of": {"k": "curve", "d": [0, t2]}}) } else { json!({"k": "curve", "d": [0, t2]}) };
+                    let other = json!({"a": {"k": "sporadic", "T": t1, "J": 0}, "c": {"k": "scalar", "c": c1}, "C": c1, "D": t1, "seg": 1, "last": 1});
+                    let mut prev_j = 0u64;
+                    for (step, j) in [0u64, 1, 2, 3, 5].iter().enumerate() {
+                        let a = if *j == 0 { curve.clone() } else { json!({"k": "jit", "J": j, "of": curve}) };
+                        let tua = json!({"a": a, "c": {"k": "scalar", "c": c0}, "C": c0, "D": 2 * t2, "seg": 1, "last": 1});
+                        let sys = json!({"tasks": [tua, other], "B": 0, "lim": 90});
+                        let res = guarded(&json!({"sys": sys}), ctx.watchdog_ms, results_call);
+                        if !res.is_object() || res.get("panic").is_some() || res.get("hang").is_some() {
+                            break;
+                        }
+                        let _ = prev_j;
+                        prev_j = *j;
+                        ctx.sink.raw(&json!({"op": if step == 0 { "reset" } else { "harden" }, "kind": if step == 0 { "reset" } else { "inc_jitter" },
+                                             "sys": sys, "res": res}));
+                    }
+                }
+            }
+        }
+    }
+}
+
 pub fn run(ctx: &mut Ctx) {
+    bursty_jitter_walks(ctx);
     let walks = if ctx.thorough { 30000 } else { 3500 };
     let (tmax, limmax) = if ctx.thorough { (24, 160) } else { (10, 60) };
     for w in 0..walks {
